@@ -1365,6 +1365,19 @@ DTLS_CHECK_REPLAY:
  */
         if (ssl->hsState == SSL_HS_FINISHED)
         {
+            /* Exactly one ChangeCipherSpec precedes Finished.  A repeated
+                one must not re-activate the read cipher and reset the
+                read sequence number (DTLS duplicates are handled above) */
+            if ((ssl->bFlags & BFLAG_CCS_RECVD)
+#ifdef USE_DTLS
+                && !(ACTV_VER(ssl, v_dtls_any))
+#endif
+                )
+            {
+                ssl->err = SSL_ALERT_UNEXPECTED_MESSAGE;
+                psTraceErrr("Repeated ChangeCipherSpec\n");
+                goto encodeResponse;
+            }
             if (sslActivateReadCipher(ssl) < 0)
             {
                 ssl->err = SSL_ALERT_INTERNAL_ERROR;
@@ -1461,6 +1474,7 @@ DTLS_CHECK_REPLAY:
             goto encodeResponse;
 #endif
         }
+        ssl->bFlags |= BFLAG_CCS_RECVD;
         ssl->decState = SSL_HS_CCC;
         *remaining = *len - (c - origbuf);
         *buf = c;
